@@ -125,6 +125,12 @@ func drawBase(t *rapid.T, x *X, maxLen int) *Case {
 	}
 	// an option value is immutable: a tenth of the cases pass every option value twice
 	c.Opts.DupOpts = gspec.U(t, 10, "dupopts") == 0
+	// a call is one-shot: what an earlier call left behind (a call cut short by its budget, in
+	// particular) and what a later call does must not show in this one
+	if gspec.U(t, 25, "poisonbefore") == 0 {
+		c.Opts.PoisonBefore = uint64(3 + gspec.U(t, 40, "poisonbudget"))
+	}
+	c.Opts.CallAfter = gspec.U(t, 12, "callafter") == 0
 	// options are independent setters: a third of the cases give them in another order
 	if gspec.U(t, 3, "optorder") == 0 {
 		c.Opts.OptOrder = 1 + gspec.U(t, 12, "optorderk")
